@@ -116,6 +116,29 @@ def make_case(rng, kind, plan, nfollow=None, follow=None, nb=None, which=0, tag=
     return {"cluster": spec, "ops": ops, "meta": {"kind": kind, "first": first, "tag": tag, "plan": plan}}
 
 
+T2 = b"t2"
+
+
+def make_case2(rng, idx, wf, rf, order):
+    spec = {"brokers": brokers(2), "topics": {T1: [1], T2: [2]},
+            "logs": {(T1, 0): [("plain", 2, None, b"a"), ("plain", 3, None, b"b"), ("plain", 4, b"k", b"c")], (T2, 0): []},
+            "log_start": {(T1, 0): 2}, "committed": {G: {(T1, 0): 3}}, "coordinator": {G: 1}}
+    ops = boot_ops(spec) + [T("set_group_offset_storage", [1])]
+    if rng.random() < 0.5:
+        ops.append(T("fetch_offsets", [[T1, T2], T("latest")]))     # both connections exist already
+    first = len(ops)
+    recs_ = [pm(T1, 0, b"k", b"x0"), pm(T2, 0, None, b"y0")]
+    plan = {}
+    if wf is not None:
+        plan = {"write": {idx: wf}, "read": {idx: rf}}
+    ops.append({"op": T("produce_messages", [1, 1, 0, recs_ if order == 0 else recs_[::-1]]), "plan": plan or None})
+    for k in range(2):
+        ops.append(T("produce_messages", [1, 1, 0, [pm(T1, 0, b"k", b"x%d" % (k + 1))]]))
+        ops.append(T("produce_messages", [1, 1, 0, [pm(T2, 0, None, b"y%d" % (k + 1))]]))
+    ops.append(T("fetch_offsets", [[T1], T("earliest")]))
+    return {"cluster": spec, "ops": ops, "meta": {"kind": "produce2", "first": first, "tag": "two_broker", "plan": plan}}
+
+
 def gen(rng, tier):
     cases = []
     quick = tier == "quick"
@@ -165,6 +188,11 @@ def gen(rng, tier):
                        [("commit" if kind in ("commit", "commit_fresh") else "produce1", 1), ("offsets", 1)], [("metadata", 0)]):
             ridx = 1 if kind != "commit_fresh" else rng.choice([1, 4])
             cases.append(make_case(rng, kind, {"read": {ridx: ["fail", "timeout"]}}, follow=follow, nb=1, tag="late_reply"))
+    # (f) one produce call addressing two brokers (acks 1), a fault at every I/O index, then calls to each broker
+    for idx in range(0, 7):
+        for wf, rf in FAULT_PAIRS + [(None, None)]:
+            for order in (0, 1):
+                cases.append(make_case2(rng, idx, wf, rf, order))
     # (e) refused connects
     for kind in KINDS:
         for h in (1, 2):
@@ -266,6 +294,7 @@ def oracle(case, recs, cl):
     init_latest = 5
     appended = 0            # messages the leader appended to t1:0 so far (from the produce requests it received)
     cleared = False         # a failed load_metadata_all leaves the client without metadata
+    tainted = set()         # hosts whose connection an earlier exchange of this case left out of step (failed read / partial write)
     for i, rec in enumerate(recs):
         item = case["ops"][i]
         op = item["op"] if isinstance(item, dict) else item
@@ -330,7 +359,7 @@ def oracle(case, recs, cl):
                                  (tag, api, len(s.reads), ", frame has %d" % (4 + size) if size is not None else ""))
                 elif corr != s.rq["correlation_id"]:
                     wrong = check_value(op, res, init_latest + appended_before, tag)
-                    fails.append("C15-late-reply: %s: success computed from a reply frame with correlation id %s, the %s request carries %d "
+                    fails.append(("C15-late-reply" if s.host in tainted else "C15") + ": %s: success computed from a reply frame with correlation id %s, the %s request carries %d "
                                  "(the frame answers an earlier request on this connection)%s" %
                                  (tag, corr, api, s.rq["correlation_id"], "; wrong result: " + wrong[0].split(": ", 2)[2] if wrong else ""))
             if not [f for f in fails if f.startswith("C15") and tag in f]:
@@ -347,6 +376,9 @@ def oracle(case, recs, cl):
             if clean and not refused and not cleared:
                 fails.append("C15: %s: every request was accepted and every reply read completely and without fault, yet the call failed: %s" %
                              (tag, dumps(res)[:80]))
+        for s in sends:
+            if s.read_fault or s.failed or (not s.complete) or (s.reply_due and reply_state(s)[0] != "whole"):
+                tainted.add(s.host)
         if fails:
             break        # the client's state after a violation (e.g. metadata taken from a foreign reply) is no basis for judging later calls
     return fails[:5]
@@ -361,7 +393,7 @@ def check_value(op, res, latest, tag):
         got = [(t.args[0], [(po.args[0], po.args[1]) for po in t.args[1]]) for t in v]
         if got != [(T1, [(0, want)])]:
             return ["C15: %s: %s offset reported as %s, the log says %d" % (tag, op.args[1].name, got, want)]
-    if op.name == "produce_messages" and op.args[0] != 0:
+    if op.name == "produce_messages" and op.args[0] != 0 and len(op.args[3]) == 1 and op.args[3][0].args[0] == T1:
         v = res.args[0]
         got = [(c.args[0], [(pc.args[0], pc.args[1]) for pc in c.args[1]]) for c in v]
         if got != [(T1, [(0, T("ok", [latest]))])]:
